@@ -23,7 +23,7 @@ def payload_expr(n, r):
     return None, data
 
 
-def program(n, reqs, raw, opts, tail_datagram=True):
+def program(n, reqs, raw, opts, tail_datagram=True, raws=None):
     lines = ['import ipv4;', 'import text;']
     data = bytes((i * 7 + 3) % 251 for i in range(n))
     if n <= 600:
@@ -48,11 +48,12 @@ def program(n, reqs, raw, opts, tail_datagram=True):
     for k in ('df', 'evil'):
         if k in opts: o.append('%s: %s' % (k, 'true' if opts[k] else 'false'))
     lines.append('let fr = ipv4::frag(10.1.2.3, 10.200.100.50, %s%s);' % (''.join(x + ', ' for x in o), pe))
-    rw = ', raw: true' if raw else ''
-    for (kind, off, ln) in reqs:
+    for j, (kind, off, ln) in enumerate(reqs):
+        rj = raws[j] if raws is not None else raw          # raw mode is a property of the CALL, not of the context
+        rw = ', raw: true' if rj else (', raw: false' if raws is not None and j % 2 else '')
         if kind == 'f': lines.append('fr.fragment(%d, %d%s);' % (off, ln, rw))
         elif kind == 't': lines.append('fr.tail(%d%s);' % (off, rw))
-        else: lines.append('fr.datagram(%s);' % ('raw: true' if raw else ''))
+        else: lines.append('fr.datagram(%s);' % rw[2:])
     return ('\n'.join(lines) + '\n').encode(), data
 
 
@@ -64,15 +65,19 @@ def expected(data, kind, off, ln):
     return off, data[s:e], e < n
 
 
-def check(c, n, reqs, raw, opts, tag):
-    src, data = program(n, reqs, raw, opts)
+def check(c, n, reqs, raw, opts, tag, raws=None):
+    src, data = program(n, reqs, raw, opts, raws=raws)
     impl, model = progdiff.run_both(c, src)
-    progdiff.compare(c, src, impl, model, 'frag', project=(lambda f: f) if raw else (lambda f: f[14:]), times=False)
+    unframe = (lambda f: f if f[:1] == b'\x45' else f[14:]) if raws is not None else ((lambda f: f) if raw else (lambda f: f[14:]))
+    progdiff.compare(c, src, impl, model, 'frag', project=unframe, times=False)
     key = None
     if impl['outcome'][0] == 'panic':
         c.violation('frag:panic', 'implementation panicked: %s' % (impl['outcome'][1],), dict(src=src.decode()[:3000]))
     elif impl['outcome'][0] == 'success' and impl['file'] is not None:
         recs = [r[1] if raw else r[1][14:] for r in progdiff.pcap_records(impl['file'])]
+        if raws is not None:
+            recs = [r[1] if rj else r[1][14:] for r, rj in zip(progdiff.pcap_records(impl['file']), raws)]
+            c.count('mixed-raw-contexts')
         if len(recs) != len(reqs):
             c.violation('frag:count', 'expected %d fragments, file has %d' % (len(reqs), len(recs)), dict(src=src.decode()[:3000]))
         inside = True
@@ -156,6 +161,13 @@ def campaign(c):
         if r.chance(1, 2): opts['ttl'] = r.choice([0, 1, 64, 255, r.below(256)])       # zero is a value, not "unset"
         if r.chance(1, 2): opts['proto'] = r.choice([0, 1, 6, 17, 47, 255, r.below(256)])
         check(c, n, reqs[:40], r.chance(1, 3), opts, 'rand')
+        if i % 3 == 0:
+            # the same context asked for framed and raw packets in turn (whole datagram, fragments, tails; repeated requests)
+            r2 = c.rng.fork('fragmix%d' % i)
+            rq = (reqs[:12] + [('d', 0, 0), ('d', 0, 0)] + reqs[:3])
+            for j in range(len(rq) - 1, 0, -1):
+                k = r2.below(j + 1); rq[j], rq[k] = rq[k], rq[j]
+            check(c, min(n, 3000), [q for q in rq if q[0] != 'f' or 8 * q[1] <= min(n, 3000)], False, opts, 'mixed-raw', raws=[r2.chance(1, 2) for _ in rq])
     c.assumptions += ['fragments are decoded from the real pcap by Spec.decodeFrag; IP header checksums are C02\'s business']
 
 
